@@ -1,16 +1,19 @@
 #!/bin/bash
-# Sensitivity matrix: every hand-written mutant (mutants/*.patch) and every seeded change
-# (seeded/*/patch.diff) against every quick check. Uses N parallel slots.
+# Sensitivity matrix: every hand-written mutant (mutants/*.patch), every seeded change
+# (seeded/*/patch.diff), every refactoring and every property-preserving audit candidate against
+# every quick check. Uses N parallel slots.
 # usage: tools/run_mutants.sh [pattern]     results -> mutants/results/<name>.json, summary on stdout
 cd /verif
 mkdir -p mutants/results
 PAT="${1:-}"
 N=${SLOTS:-4}
 i=0
-for p in mutants/*.patch seeded/*/patch.diff; do
+for p in mutants/*.patch seeded/*/patch.diff refactorings/*/patch.diff preserving/*/patch.diff; do
   [ -f "$p" ] || continue
   case "$p" in *"$PAT"*) ;; *) continue;; esac
-  if [[ "$p" == seeded/* ]]; then name="seeded_$(basename $(dirname $p))"; demo="--demo $(ls $(dirname $p)/demo*.rs 2>/dev/null | head -1)"; else name=$(basename "$p" .patch); demo=""; fi
+  if [[ "$p" == refactorings/* ]]; then name="refac_$(basename $(dirname $p))"; demo="";
+  elif [[ "$p" == preserving/* ]]; then name="pres_$(basename $(dirname $p))"; demo="";
+  elif [[ "$p" == seeded/* ]]; then name="seeded_$(basename $(dirname $p))"; demo="--demo $(ls $(dirname $p)/demo*.rs 2>/dev/null | head -1)"; else name=$(basename "$p" .patch); demo=""; fi
   slot=$((i % N)); i=$((i+1))
   ( python3 tools/run_seeded.py "$p" $demo --slot $slot --json "mutants/results/$name.json" --collect "mutants/results/replays/$name" > /dev/null 2>&1 ) &
   if [ $((i % N)) -eq 0 ]; then wait; fi
